@@ -1,5 +1,5 @@
 (* C06: COBS-framed output is one well-formed frame and decodes back, frame by frame. *)
-From PV Require Import Base MachineInt DataModel Ser De Cobs CobsRef SerFlavors DeFlavors CobsEncFacts Sinks Thresholds Cobs Crc SerFlavors ModDecl GenModifiers ModInterp ModFacts GenEntryPoints.
+From PV Require Import Base MachineInt DataModel Ser De Cobs CobsRef SerFlavors DeFlavors CobsEncFacts Sinks Thresholds Cobs Crc SerFlavors ModDecl GenModifiers ModInterp ModFacts GenEntryPoints SchemaDecl SerEntryDecl GenSerEntry StorageInterp SerEntryInterp SerEntryFacts.
 Open Scope N_scope.
 
 (* the streaming encoder with its placeholder back-patching, on growable storage, produces
@@ -84,6 +84,19 @@ Proof. exact modifiers_define_exactly. Qed.
 Theorem C06_entry_points_are_the_source : de_entry_points_standard = true.
 Proof. reflexivity. Qed.
 
+(* the serialising entry points are the code of ser/mod.rs (and of the crc module of
+   ser/flavors.rs) as read on this run (GenSerEntry.v): the flavour stack each one builds from its
+   own arguments (Slice::new(buf), HVec::default(), AllocVec::new(), Cobs::try_new(..)?,
+   CrcModifier::new(.., digest), the aliases to_stdvec* and to_*_crc32 resolved through the macro
+   instances), handed to serialize_with_flavor as matched against its template (serialize, then
+   finalize with the error kind read from the source) *)
+Theorem C06_cobs_entry_points_are_the_source : forall a v,
+  omap EOSlice (to_slice_cobs v (ea_buf a)) = run_entry a v e_to_slice_cobs /\
+  omap EOVec (to_vec_cobs (ea_cap a) v) = run_entry a v e_to_vec_cobs /\
+  omap EOVec (to_allocvec_cobs v) = run_entry a v e_to_allocvec_cobs /\
+  omap EOVec (to_allocvec_cobs v) = run_entry a v e_to_stdvec_cobs.
+Proof. exact cobs_entries_are_source. Qed.
+
 Print Assumptions C06_output_is_cobs.
 Print Assumptions C06_output_heapless.
 Print Assumptions C06_output_slice.
@@ -96,3 +109,4 @@ Print Assumptions C06_cobs_try_push_is_the_source.
 Print Assumptions C06_cobs_finalize_is_the_source.
 Print Assumptions C06_modifiers_define_exactly.
 Print Assumptions C06_entry_points_are_the_source.
+Print Assumptions C06_cobs_entry_points_are_the_source.
